@@ -46,6 +46,8 @@ def faults(enc, marks, proto, rnd, max_flips=None):
         yield ("bitflip", [k, b], m)
     for mk in marks:
         pos, w, kind = mk["pos"], mk["w"], mk["kind"]
+        if pos + w > n:
+            continue      # a mark of something this encoding elides (e.g. the key/value types of an empty compact map)
         remaining = n - (pos + w)
         if proto == "compact" and kind in ("len", "count", "id"):
             for v in (0, 1, max(0, remaining - 1), remaining + 1, 2**31 - 1, 2**32 - 1):
